@@ -466,23 +466,16 @@ def mgrDone (σ : St) (t : Nat) (k : MK) : St :=
   | .rmFree1 => σ.goto t (.f1 .rmFree2 (.posO x.s))
   | .rmFree2 => σ.goto t .rr4
   | .rmTokFree kk =>
-      -- both guards of `remove_token` are dropped
-      let σ1 := { σ with mgrOwner := none, wtfOwner := none }
-      if kk = 0 then sendDropTail σ1 t else recvDropTail σ1 t
+      if kk = 0 then sendDropTail σ t else recvDropTail σ t
 
 /-- tail of `free`: if more than 20 objects wait, try to start a reclamation cycle; else release the list lock -/
 def freeTail (σ : St) (t : Nat) (k : MK) : St :=
   if σ.wtf.length > 20 then σ.goto t (.f7 k)
-  else
-    match k with
-    | .rmTokFree _ => mgrDone σ t k
-    | _ => mgrDone { σ with wtfOwner := none } t k
+  else mgrDone { σ with wtfOwner := none } t k
 
-/-- `free` leaves: releases the list lock unless the caller (`remove_token`) still needs its own guard -/
+/-- `free` leaves: releases the list lock -/
 def freeEnd (σ : St) (t : Nat) (k : MK) : St :=
-  match k with
-  | .rmTokFree _ => mgrDone σ t k
-  | _ => mgrDone { σ with wtfOwner := none } t k
+  mgrDone { σ with wtfOwner := none } t k
 
 /-- Nat-level meaning of `wait::check(seq, tag, writers)` -/
 def checkVal (seq : Nat) (tg : Option Nat) (writers : Nat) : Bool :=
@@ -879,9 +872,9 @@ def stepRun (σ0 : St) (t : Nat) (inp : Nat) : Obs × St :=
       let flags := (if σ0.noReader then 2 else 0) + (if σ0.sigE then 1 else 0)
       (mkObs σ0 t .for_ .signal .rel (a := 1) (res := flags), freeEnd { σ with sigE := true, mgrOwner := none } t k)
   | .rt1 kk =>
-      -- remove_token: lock, unregister, then free(token) (whose try_locks fail: the lock is held)
+      -- remove_token: lock, unregister, unlock (end of the block); then free(token)
       (mkObs σ0 t .lock .mxmgr,
-       ({ σ with mgrOwner := some t, toks := σ0.toks.erase h_.tok }).goto t (.f1 (.rmTokFree kk) (.tokO h_.tok)))
+       ({ σ with toks := σ0.toks.erase h_.tok }).goto t (.f1 (.rmTokFree kk) (.tokO h_.tok)))
 where
   stepLa2 (σ0 σ : St) (t : Nat) (x : Th) (s : Nat) : Obs × St :=
     let p := σ0.pos s
